@@ -1,6 +1,7 @@
 import AikenVerif.Drivers.Names
 import AikenVerif.Drivers.Cek
 import AikenVerif.Drivers.Shrink
+import AikenVerif.Drivers.Flat
 /-!
 Native driver: line protocol.  Each request line is
   `<sub-command> <case-id> <fields…>`
@@ -21,6 +22,7 @@ def dispatch (st : DriverState) (sub : String) (args : List String) : DriverStat
   | "cek" => (st, Drivers.Cek.handleCek st.costModel args)
   | "spec" => (st, Drivers.Cek.handleSpec args)
   | "shrink" => (st, Drivers.Shrink.handle args)
+  | "flat" => (st, Drivers.Flat.handle args)
   | _ => (st, "unknown-subcommand")
 
 partial def loop (h : IO.FS.Stream) (out : IO.FS.Stream) (st : DriverState) : IO Unit := do
